@@ -345,6 +345,35 @@ func (in *Interp) loop(fr *frame, initCtx bool) V {
 			panic(pathEnd{"unwind", fmt.Sprintf("block %d of %s", b.Index, fr.fn)})
 		}
 		var next *ssa.BasicBlock
+		// phis of a block are evaluated simultaneously (all read the values of the predecessor edge first)
+		if len(b.Instrs) > 0 {
+			if _, isPhi := b.Instrs[0].(*ssa.Phi); isPhi {
+				pi := -1
+				for i, p := range b.Preds {
+					if p == fr.prev {
+						pi = i
+						break
+					}
+				}
+				var phis []*ssa.Phi
+				var vals []V
+				for _, ins := range b.Instrs {
+					ph, ok := ins.(*ssa.Phi)
+					if !ok {
+						break
+					}
+					phis = append(phis, ph)
+					if pi >= 0 {
+						vals = append(vals, in.get(fr, ph.Edges[pi]))
+					}
+				}
+				if pi >= 0 {
+					for i, ph := range phis {
+						fr.env[ph] = vals[i]
+					}
+				}
+			}
+		}
 		for _, ins := range b.Instrs {
 			in.steps++
 			if in.steps > in.maxSteps {
@@ -352,12 +381,6 @@ func (in *Interp) loop(fr *frame, initCtx bool) V {
 			}
 			switch x := ins.(type) {
 			case *ssa.Phi:
-				for i, p := range b.Preds {
-					if p == fr.prev {
-						fr.env[x] = in.get(fr, x.Edges[i])
-						break
-					}
-				}
 			case *ssa.If:
 				c := in.get(fr, x.Cond).(Bool)
 				if c.S != nil {
@@ -418,7 +441,7 @@ func (in *Interp) exec(fr *frame, ins ssa.Instruction, initCtx bool) {
 		if p == nil {
 			panic(goPanic{Str{S: "nil pointer store"}})
 		}
-		*p = copyVal(in.get(fr, x.Val))
+		storeInto(p, in.get(fr, x.Val))
 	case *ssa.UnOp:
 		fr.env[x] = in.unop(fr, x)
 	case *ssa.BinOp:
@@ -520,6 +543,28 @@ func (in *Interp) exec(fr *frame, ins ssa.Instruction, initCtx bool) {
 	default:
 		panic(unsupported(fmt.Sprintf("instruction %T in %s", ins, fr.fn)))
 	}
+}
+
+// storeInto writes v into the slot p. Aggregates are written element by element INTO the existing aggregate so that
+// pointers to its fields/elements taken earlier (FieldAddr/IndexAddr) stay valid, as in Go's memory model.
+func storeInto(p *V, v V) {
+	switch nv := v.(type) {
+	case Array:
+		if old, ok := (*p).(Array); ok && len(old) == len(nv) {
+			for i := range nv {
+				storeInto(&old[i], nv[i])
+			}
+			return
+		}
+	case Struct:
+		if old, ok := (*p).(Struct); ok && len(old) == len(nv) {
+			for i := range nv {
+				storeInto(&old[i], nv[i])
+			}
+			return
+		}
+	}
+	*p = copyVal(v)
 }
 
 // ---- calls from instructions ----
